@@ -339,7 +339,17 @@ def gen_units_flip_program(rng, n):
         if k == "set_units":
             slots = {}
             for s in sorted({pick_slot(rng) for _ in range(rng.randint(1, 4))}):     # sorted: hash-seed independent
-                slots[s] = ["enum", pick_unit(rng, SLOTS[s][0])]
+                r = rng.random()
+                if r < 0.65:
+                    slots[s] = ["enum", pick_unit(rng, SLOTS[s][0])]
+                elif r < 0.85:
+                    # by name, as a config file or a UI would: a documented spelling in some letter case
+                    from pbsim.names import UNIT_ALIASES
+                    u = pick_unit(rng, SLOTS[s][0])
+                    name = gen.pick(rng, [u] + UNIT_ALIASES[u])
+                    slots[s] = ["name", gen.pick(rng, [name, name.lower(), name.upper()])]
+                else:
+                    slots[s] = ["name", gen.pick(rng, ["xyz", "meterz", "footpounds", ""])]   # unknown: must change nothing
             prog.append({"op": "set_units", "slots": slots})
         elif k == "assign_unit":
             s = pick_slot(rng)
